@@ -346,6 +346,7 @@ class Engine:
         self.depth = 0
         self.max_depth = 400
         self.trace = None
+        self.cg_stack = [[]]
         self.env = {}             # harness-provided environment (stubs etc.)
         self.pc = []
         self.decisions = []
@@ -476,7 +477,7 @@ class Engine:
             c = strip_generics(callee)
         if c in self.funcs:
             return c
-        short = c.split('::')
+        short = c.split('::') if not c.startswith('<') else []
         for k in range(len(short)):
             cand = '::'.join(short[k:])
             if cand in self.funcs:
@@ -516,6 +517,7 @@ class Engine:
             self.loopcount = {}
             self.statics = {}
             self.depth = 0
+            self.cg_stack = [[]]
             self.stats['paths'] += 1
             if self.stats['paths'] > max_paths:
                 raise Unsupported('path budget exceeded')
@@ -638,14 +640,16 @@ class Engine:
             return self.do_call(name, args, None, None)
         return self.run(self.funcs[fn], args)
 
-    def run(self, f, args):
+    def run(self, f, args, cg=None):
         if not f.compiled:
             compile_function(f)
+        self.cg_stack.append(cg or [])
         if f.name not in self.encoded:
             self.encoded[f.name] = f.nlines
         self.depth += 1
         if self.depth > self.max_depth:
             self.depth -= 1
+            self.cg_stack.pop()
             raise PathEnd('bound', 'call depth bound in ' + f.name)
         try:
             return self._run(f, args)
@@ -658,6 +662,7 @@ class Engine:
             raise
         finally:
             self.depth -= 1
+            self.cg_stack.pop()
 
     def _run(self, f, args):
         fr = [None] * f.nlocals
@@ -920,6 +925,8 @@ class Engine:
                     self.statics[fn] = Cell(self.run(fobj, []), 'static')
                 return Ref(self.statics[fn])
             return FnItem(fn)
+        if re.fullmatch(r'[A-Z]\w{0,3}', s) and self.cg_stack and len(self.cg_stack[-1]) == 1:
+            return mkint(self.cg_stack[-1][0], 'usize')
         if re.match(r'^[A-Za-z_<]', s):
             return FnItem(s)
         return Opaque('const ' + s)
@@ -956,7 +963,12 @@ class Engine:
             return Vec([self.operand(f, fr, a) for a in r[1]])
         if k == 'repeat':
             v = self.operand(f, fr, r[1])
-            return Vec([deep_copy(v) for _ in range(r[2])])
+            n = r[2]
+            if isinstance(n, str):
+                if not (self.cg_stack and len(self.cg_stack[-1]) == 1):
+                    raise Unsupported('array length is an unknown const generic ' + n)
+                n = self.cg_stack[-1][0]
+            return Vec([deep_copy(v) for _ in range(n)])
         if k == 'adt':
             return self.adt(f, fr, r, ty)
         if k == 'closure':
@@ -1363,7 +1375,22 @@ class Engine:
             if ctor is not None:
                 return ctor
             raise Unsupported('no MIR body or model for ' + callee)
-        return self.run(self.funcs[fnname], args)
+        return self.run(self.funcs[fnname], args, self.const_generics_of(callee))
+
+    def const_generics_of(self, callee):
+        """integer const-generic arguments of the last turbofish of a callee path"""
+        k = callee.rfind('::<')
+        if k < 0 or not callee.endswith('>'):
+            return None
+        out = []
+        for a in split_top(callee[k + 3:-1]):
+            a = a.strip()
+            mm = re.fullmatch(r'(\d+)(?:_\w+)?', a)
+            if mm:
+                out.append(int(mm.group(1)))
+            elif re.fullmatch(r'[A-Z]\w{0,3}', a) and self.cg_stack and len(self.cg_stack[-1]) == 1:
+                out.append(self.cg_stack[-1][0])     # forwarded const generic parameter
+        return out or None
 
     def ctor_call(self, callee, args):
         """an enum variant / tuple struct constructor used as a function value"""
